@@ -25,18 +25,21 @@ EXTENDS RoundTrip, Json, IOUtils
 VARIABLES l, st, skipping, fails, cs
 
 \* the declared calls: listed (steps), or - concurrent batches - batch.count calls of batch.op, call i with values of its own
-XInit(e) == [ops |-> [i \in 1..Len(e.steps) |-> e.steps[i].op], bop |-> e.batch.op, bn |-> e.batch.count]
+\* (case "race", appended by the runner: the race detector observed the whole run; its report count)
+XInit(e) == IF e.kind = "race" THEN [ops |-> <<>>, bop |-> "race", bn |-> 0]
+            ELSE [ops |-> [i \in 1..Len(e.steps) |-> e.steps[i].op], bop |-> e.batch.op, bn |-> e.batch.count]
 
 Declared(s, e) == IF s.bn > 0 THEN e.step \in 1..s.bn /\ e.op = s.bop
                   ELSE e.step \in 1..Len(s.ops) /\ s.ops[e.step] = e.op
 
 Call(e) == [op |-> e.op, media |-> e.media, params |-> e.supplied]
-Obs(e)  == [err |-> e.err, handled_op |-> e.handled_op, received |-> e.received, handler |-> e.handler, seen |-> e.seen]
+Obs(e)  == [err |-> e.err, handled_op |-> e.handled_op, invoked |-> e.invoked, received |-> e.received, handler |-> e.handler, seen |-> e.seen]
 
 XAllowed(s, e) ==
   CASE e.ev = "exchange" -> /\ e.setup
                             /\ Declared(s, e)                                        \* the exchange is the declared step
                             /\ ExchangeOK(Call(e), Obs(e))
+    [] e.ev = "race" -> s.bop = "race" /\ e.reports = 0       \* no data race among concurrent exchanges (or anywhere else)
     [] OTHER -> FALSE
 
 XWhy(s, e) ==
@@ -45,6 +48,7 @@ XWhy(s, e) ==
                             ELSE IF s.bn > 0 THEN WhyExchange(Call(e), Obs(e)) \o "/concurrent"
                             ELSE IF e.step > 1 THEN WhyExchange(Call(e), Obs(e)) \o "/after-history"
                             ELSE WhyExchange(Call(e), Obs(e))
+    [] e.ev = "race" -> "data-race-reported"
     [] OTHER -> "unknown-event"
 
 XStep(s, e) == s
